@@ -90,6 +90,11 @@ def execute(case, obs):
     order, n, nan_cells, how, wpath, seed = case[:6]
     index_kind = case[6] if len(case) > 6 else "default"
     df = table(order, n, nan_cells, seed)
+    if len(case) > 7 and case[7] == "float32-range-end":
+        big = [3.4028234663852886e38, -3.4028234663852886e38, 3.4028e38, -3.40281e38, 3.4e38, 3.3999999e38, 3.402823e38]
+        for r in range(n):
+            for j, f in enumerate(("score", "geom1", "x", "shift_z", "phi", "geom5", "class")):
+                df.loc[r, f] = big[(j + 3 * r) % len(big)]
     if index_kind != "default":
         # what sort_values / boolean filtering / iloc[::2] leave behind: row labels that are not 0..N-1 in order
         labels = {"reversed": list(range(n - 1, -1, -1)), "gapped": [3 * i + 2 for i in range(n)],
@@ -221,6 +226,22 @@ def families(tier, seed):
         coll.append((n, ()))
         coll.append((n, ((n - 1, 0), (0, 19), (n // 2, 7))))
     sp2 = Mapped(Product(few_orders, Listed(coll), CONSTRUCT, WRITE), mk)
+    # rows that are entirely missing / zero (also as the LAST particle), and values at the very end of the float32 range
+    edge = []
+    for n in (1, 2, 3):
+        edge.append((n, tuple((n - 1, c) for c in range(20))))                        # last particle: every field missing
+        edge.append((n, tuple((0, c) for c in range(20))))                            # first particle: every field missing
+        edge.append((n, tuple((r, c) for r in range(n) for c in range(20))))          # every particle all-missing
+    sp_edge = Mapped(Product(few_orders, Listed(edge), ["Motl(df)", "Motl.load(df)", "EmMotl(df)", "EmMotl(EmMotl)"], WRITE), mk)
+    fam_edge = Family("all-missing-rows", sp_edge, execute, describe=describe, expect=("file-header", "file-values", "load-shape", "load-values"), min_outcomes=1)
+
+    def mk_big(c):
+        (order, n, how, w) = c
+        return (order, n, (), how, w, seed, "default", "float32-range-end")
+
+    sp_big = Mapped(Product(few_orders, [1, 2], ["Motl(df)", "EmMotl(df)"], WRITE), mk_big)
+    fam_big = Family("float32-range-end", sp_big, execute, describe=lambda c: dict(describe(c[:6]), values="+-float32 max and neighbours"),
+                     expect=("file-values", "load-values"), min_outcomes=1)
     # hidden representation state: the same tables with a non-default row index, with and without NaN holes
     idx_cases = []
     for n in (2, 3, 5):
@@ -235,6 +256,7 @@ def families(tier, seed):
     sp_idx = Mapped(Product(few_orders, Listed(idx_cases), CONSTRUCT, WRITE, ["reversed", "gapped", "shuffled"]), mk_idx)
     extra = [Family("non-default-row-index", sp_idx, execute, describe=lambda c: dict(describe(c[:6]), row_index=c[6]),
                     expect=("file-header", "file-field-order", "file-values", "load-values", "second-generation-identical"))]
+    extra += [fam_edge, fam_big]
     if tier == "thorough":
         # deviation bound 2: every order reachable by two transpositions, on a reduced pattern/path alphabet
         two = [o for o in neighbourhood_swaps(base, 2)][191:]
